@@ -310,7 +310,7 @@ def all_arms_stage(ck, aa, oracles, stats, nviol):
                 bad = [k for k in trace if cc.covered(k, ranges)]
                 if bad:
                     st["disagreements"] += 1
-                    if nviol < 3:
+                    if st["disagreements"] <= 2:          # reported whatever the earlier stages found: the stream speaks for itself
                         nviol += 1
                         ck.violation("statement at line %d of %s (%s) executes under CPython (oracle %s) but lies in a range pyscn reports as dead code: %s; "
                                      "composition %s" % (bad[0], name, m["lines"][bad[0] - 1].strip()[:40], oracles[oi],
